@@ -67,6 +67,12 @@ check("C09",
  "deterministic simulation: seeded call/version histories with schema-read fault injection on a long-lived cache-holding object, refinement against an immutable reference model, minimised replay files",
  "DESIGN.md 4.2")
 
+check("C20",
+ "Seeded search over short histories in a private tmpfs directory: generated documents with BMP/astral/combining/bidi/control characters (CR, CRLF, NEL, U+2028...) written as UTF-8 and read back through open / load (text-mode, newline='', StringIO) / loads; save / dump / dumps compared byte for byte; string values placed through the dict API (ground truth known, random code points of every plane) must survive save->open/load unchanged; `mappyfile format` (every option, also IN == OUT, with an INCLUDE) against save(open(IN)); `mappyfile validate` over sets of 1-8 files mixing valid, invalid with n messages (n concentrated at 1, 2, 254-258, 300, 511-513), version-dependent, unparseable, undecodable, empty, directory, missing, wildcard - message-line count and exit status against the API; `mappyfile schema` against the API's JSON. The CLI runs in-process through click; the exit-status model (n & 0xFF) is calibrated against real subprocesses in every batch. A few hundred runs per quick invocation; sampling evidence.",
+ "Trusts the exit-status model as far as the calibration subprocesses confirm it, and tmpfs as the file system. Message text is not compared. Strings containing the output quote character or ending in a backslash are not generated.",
+ "deterministic simulation: seeded operation histories over a private file tree with faulty files (undecodable / unparseable / missing / directory) as the fault kinds, relational oracles file vs stream vs string vs CLI, subprocess-calibrated process-exit model, minimised replay files",
+ "DESIGN.md 4.4")
+
 def main():
     order = ["C03", "C09", "C12", "C15", "C17", "C18", "C20"]
     claimed = [CHECKS[p] for p in order if p in CHECKS]
